@@ -315,3 +315,125 @@ Lemma ex_wire :
                VL [VL [VZ 2; VZ 2; VZ 0]; VL [VZ 1; VZ 0; VB []; VL [VL [VL [VZ 1; VZ 0; VZ 0]]]]; VL [VZ 1; VZ 1; VB []; VL []]]] in
   kf_C05 i = 0 /\ run_C05 i <> VErr 0.
 Proof. split; vm_compute; [reflexivity|discriminate]. Qed.
+
+(* ---------- WrrSimple in a static environment with non-negative weights: general proof ---------- *)
+Lemma loop_unfold : forall f s next start ad,
+  simple_loop (S f) s next start ad =
+    let n := Z.of_nat (length (fst s)) in
+    if (next <? 0) || (next >=? n) then (s, start, RPanic)
+    else
+      let i := Z.to_nat next in
+      let b := getb s i in
+      if bav b && (bcur b >? 0) then
+        (setb s i (add_cur (-1)), move_next next n, ROk [bid b])
+      else
+        let s1 := tick s in
+        let all_down' := if bav b && negb (bw b =? 0) then false else ad in
+        let next' := move_next next n in
+        if next' =? start then
+          if all_down' then (s1, start, RErr 1)
+          else simple_loop f (reset_cur s1) 0 0 all_down'
+        else simple_loop f s1 next' start all_down'.
+Proof. reflexivity. Qed.
+
+Lemma in_range_false : forall p n, 0 <= p < n -> (p <? 0) || (p >=? n) = false.
+Proof.
+  intros p n H. apply orb_false_iff. split; [apply Z.ltb_ge; lia|].
+  rewrite Z.geb_leb. apply Z.leb_gt. lia.
+Qed.
+
+(* linear scan from position p with brr.next = 0: an available backend with credit at or after p is found *)
+Lemma scan_finds : forall bs (k : nat) p ad fuel,
+  0 <= p -> Z.of_nat k = Z.of_nat (length bs) - p -> (k <= fuel)%nat ->
+  (exists i : nat, p <= Z.of_nat i < Z.of_nat (length bs) /\
+                   bav (getb (bs, []) i) = true /\ bcur (getb (bs, []) i) > 0) ->
+  is_returned (snd (simple_loop fuel (bs, []) p 0 ad)) = true.
+Proof.
+  intros bs. induction k as [|k IH]; intros p ad fuel Hp Hk Hf [i [Hi [Hav Hcur]]]; [lia|].
+  destruct fuel as [|f]; [lia|]. rewrite loop_unfold. cbv zeta. cbn [fst].
+  rewrite in_range_false by lia.
+  destruct (bav (getb (bs, []) (Z.to_nat p)) && (bcur (getb (bs, []) (Z.to_nat p)) >? 0)) eqn:Eok; [reflexivity|].
+  assert (Hne : Z.of_nat i <> p).
+  { intros <-. rewrite Nat2Z.id in Eok. rewrite Hav in Eok. simpl in Eok. apply Z.gtb_ltb in Eok || idtac.
+    destruct (bcur (getb (bs, []) i) >? 0) eqn:G; [discriminate|]. rewrite Z.gtb_ltb in G. apply Z.ltb_ge in G. lia. }
+  assert (Hmv : move_next p (Z.of_nat (length bs)) = p + 1).
+  { unfold move_next. destruct (p + 1 >=? Z.of_nat (length bs)) eqn:G; [|reflexivity].
+    rewrite Z.geb_leb in G. apply Z.leb_le in G. lia. }
+  rewrite Hmv. destruct (p + 1 =? 0) eqn:G; [apply Z.eqb_eq in G; lia|].
+  change (tick (bs, [])) with ((bs, []) : dyn).
+  apply IH; [lia|lia|lia|]. exists i. split; [lia|split; assumption].
+Qed.
+
+Definition dist (next start n : Z) : Z := if next <? start then start - next else n - next + start.
+
+Lemma reset_getb : forall bs i,
+  getb (reset_cur (bs, [])) i =
+  mkBe (bid (getb (bs, []) i)) (bw (getb (bs, []) i)) (bw (getb (bs, []) i)) (bav (getb (bs, []) i)) (bcn (getb (bs, []) i)).
+Proof.
+  intros bs i. unfold reset_cur, getb. cbn [fst snd].
+  change be0 with ((fun b => mkBe (bid b) (bw b) (bw b) (bav b) (bcn b)) be0) at 1.
+  rewrite map_nth. reflexivity.
+Qed.
+
+Lemma phase1 : forall bs (d : nat) next start ad fuel,
+  (forall i, 0 <= bw (getb (bs, []) i)) ->
+  0 <= next < Z.of_nat (length bs) -> 0 <= start < Z.of_nat (length bs) ->
+  Z.of_nat d = dist next start (Z.of_nat (length bs)) ->
+  (d + length bs + 1 <= fuel)%nat ->
+  (ad = false -> exists i : nat, Z.of_nat i < Z.of_nat (length bs) /\
+                   bav (getb (bs, []) i) = true /\ bw (getb (bs, []) i) > 0) ->
+  is_returned (snd (simple_loop fuel (bs, []) next start ad)) = true.
+Proof.
+  intros bs. induction d as [|d IH]; intros next start ad fuel Hw Hnx Hst Hd Hf Had.
+  - unfold dist in Hd. destruct (next <? start) eqn:G; [apply Z.ltb_lt in G|apply Z.ltb_ge in G]; lia.
+  - destruct fuel as [|f]; [lia|]. rewrite loop_unfold. cbv zeta. cbn [fst].
+    rewrite in_range_false by lia.
+    set (b := getb (bs, []) (Z.to_nat next)).
+    destruct (bav b && (bcur b >? 0)) eqn:Eok; [reflexivity|].
+    change (tick (bs, [])) with ((bs, []) : dyn).
+    set (ad' := if bav b && negb (bw b =? 0) then false else ad).
+    assert (Had' : ad' = false -> exists i : nat, Z.of_nat i < Z.of_nat (length bs) /\
+                   bav (getb (bs, []) i) = true /\ bw (getb (bs, []) i) > 0).
+    { unfold ad'. destruct (bav b && negb (bw b =? 0)) eqn:G.
+      - intros _. apply andb_true_iff in G. destruct G as [G1 G2]. apply negb_true_iff in G2. apply Z.eqb_neq in G2.
+        exists (Z.to_nat next). split; [rewrite Z2Nat.id; lia|]. split; [exact G1|].
+        pose proof (Hw (Z.to_nat next)) as Hwn. unfold b in *. lia.
+      - exact Had. }
+    unfold dist in Hd.
+    destruct (move_next next (Z.of_nat (length bs)) =? start) eqn:Ewrap.
+    + destruct ad' eqn:Ead; [reflexivity|].
+      destruct (Had' eq_refl) as [i [Hi [Hav Hwi]]].
+      assert (Hlen : length (fst (reset_cur (bs, []))) = length bs) by (unfold reset_cur; cbn [fst]; apply map_length).
+      pose proof (scan_finds (fst (reset_cur (bs, []))) (length bs) 0 false f) as S.
+      change (reset_cur (bs, [])) with ((fst (reset_cur (bs, [])), []) : dyn).
+      apply S; [lia|rewrite Hlen; lia|lia|].
+      exists i. rewrite Hlen. split; [lia|].
+      change ((fst (reset_cur (bs, [])), []) : dyn) with (reset_cur (bs, [])).
+      rewrite reset_getb. cbn [bav bcur]. split; [exact Hav|exact Hwi].
+    + apply Z.eqb_neq in Ewrap. unfold move_next in *.
+      destruct (next + 1 >=? Z.of_nat (length bs)) eqn:G; rewrite Z.geb_leb in G;
+        [apply Z.leb_le in G|apply Z.leb_gt in G];
+        destruct (next <? start) eqn:G2; [apply Z.ltb_lt in G2|apply Z.ltb_ge in G2|apply Z.ltb_lt in G2|apply Z.ltb_ge in G2];
+        (apply IH; [exact Hw|lia|lia| |lia|exact Had']); unfold dist;
+        match goal with |- context [?x <? ?y] => destruct (Z.ltb_spec x y) end; lia.
+Qed.
+
+(* BalanceRR.Balance(WrrSimple) on a non-empty list with weights >= 0 and no concurrent change returns a backend
+   or "all backend is down" within 2*len+1 probes, from every state of the credits and every brr.next in range. *)
+Theorem simple_static_total : forall bs next,
+  (forall b, In b bs -> 0 <= bw b) -> 0 <= next < Z.of_nat (length bs) ->
+  is_returned (snd (simple (2 * length bs + 1) (bs, []) next)) = true.
+Proof.
+  intros bs next Hw Hn. unfold simple.
+  apply (phase1 bs (length bs) next next true).
+  - intros i. unfold getb. cbn [fst]. destruct (nth_in_or_default i bs be0) as [H|H]; [apply Hw; exact H|rewrite H; simpl; lia].
+  - exact Hn.
+  - exact Hn.
+  - unfold dist. rewrite Z.ltb_irrefl. lia.
+  - lia.
+  - discriminate.
+Qed.
+
+Lemma ex_partial :
+  (forall b, In b (fst flip_witness) -> 0 <= bw b) /\ snd (simple 5 (fst flip_witness, []) 0) = ROk [1].
+Proof. split; [intros b [<-|[<-|[]]]; simpl; lia|exact simple_no_flip_returns]. Qed.
